@@ -7,6 +7,7 @@ CONSTANTS
   FaultAts = {0, 0, 0, 2, 3, 5}
   MultiQ = FALSE
   KeepSched = TRUE
+  WCCheckBeforeLock = FALSE
 CONSTRAINT EmitSched
 INVARIANTS MonitorOK
 CHECK_DEADLOCK FALSE
